@@ -695,6 +695,40 @@ func encPolicy(p *routing.Policy) string {
 	return sb.String()
 }
 
+// encTextRules renders the rules with their atoms as text (ops ptx / ppx of the policy-text model).
+func encTextRules(rs []routing.Rule) (string, bool) {
+	var sb strings.Builder
+	fmt.Fprintf(&sb, "%d", len(rs))
+	iam := func(m routing.IAMatcher) (int, string, bool) {
+		switch v := m.(type) {
+		case routing.SingleIAMatcher:
+			return 0, v.IA.String(), true
+		case routing.NegatedIAMatcher:
+			if in, ok := v.IAMatcher.(routing.SingleIAMatcher); ok {
+				return 1, in.IA.String(), true
+			}
+		}
+		return 0, "", false
+	}
+	for _, ru := range rs {
+		fn, fi, ok1 := iam(ru.From)
+		tn, ti, ok2 := iam(ru.To)
+		if !ok1 || !ok2 || int(ru.Action) < 1 || int(ru.Action) > 4 || len(ru.Network.Allowed) == 0 {
+			return "", false
+		}
+		fmt.Fprintf(&sb, " %d %d %s %d %s %d %d", int(ru.Action), fn, fi, tn, ti, b2i(ru.Network.Negated), len(ru.Network.Allowed))
+		for _, n := range ru.Network.Allowed {
+			sb.WriteString(" " + n.String())
+		}
+		nh := "-"
+		if ru.NextHop != nil {
+			nh = ru.NextHop.String()
+		}
+		sb.WriteString(" " + nh + " " + vlib.Hex([]byte(ru.Comment)))
+	}
+	return sb.String(), true
+}
+
 var comments = []string{"", "", "hello", "allow # all", "x  y", "a,b;c", "trailing#", "# starts with hash"}
 
 // genPolicy: expressible=true restricts to what the text form can carry (DESIGN 7a): known
@@ -732,6 +766,20 @@ func genPolicy(r *vlib.Rand, expressible bool) *routing.Policy {
 			ru.NextHop = net.ParseIP([]string{"10.0.0.1", "2001:db8::1"}[r.Intn(2)])
 		}
 		ru.Comment = comments[r.Intn(len(comments))]
+		if r.Chance(15) { // random printable comment without leading/trailing blank
+			n := r.Range(1, 12)
+			b := make([]byte, n)
+			for k := range b {
+				b[k] = byte(r.Range(0x20, 0x7e))
+			}
+			if b[0] == ' ' {
+				b[0] = 'x'
+			}
+			if b[n-1] == ' ' {
+				b[n-1] = 'y'
+			}
+			ru.Comment = string(b)
+		}
 		p.Rules = append(p.Rules, ru)
 	}
 	return p
@@ -935,6 +983,17 @@ func runPolicies(e *vlib.Env, r *vlib.Rand, ncases int) {
 		if err := p2.UnmarshalText(txt); err != nil {
 			e.Violate("C42/unmarshal", "UnmarshalText(MarshalText(p)) failed: "+err.Error(), map[string]any{"policy": pline, "text": string(txt)})
 			continue
+		}
+		// the text itself: real MarshalText vs the model's, byte for byte; real parse vs the model's
+		if enc, ok := encTextRules(p.Rules); ok {
+			e.Op("ptx "+enc, vlib.Hex(txt), "text-marshal")
+			if enc2, ok := encTextRules(p2.Rules); ok {
+				e.Op("ppx "+vlib.Hex(txt), enc2, "text-unmarshal")
+				if enc2 != enc {
+					e.Violate("C42/text-roundtrip-rules", "the re-parsed rules differ from the marshalled ones (action, matchers, networks, next hop or comment)",
+						map[string]any{"policy": pline, "text": string(txt), "before": enc, "after": enc2})
+				}
+			}
 		}
 		e.Op(encPolicy(p2), fmt.Sprintf("ok %d", len(p.Rules)), "pol-reparsed")
 		for k := range qs {
